@@ -8,7 +8,7 @@ from . import hubutil, prng
 from .hubutil import HarnessError
 
 WORKERS = int(os.environ.get("VERIF_WORKERS", "16"))
-PLAN = {"quick": (256, 10, 0), "thorough": (1500, 16, 0)}  # batches, runs per batch, (unused)
+PLAN = {"quick": (256, 10, 0), "thorough": (400, 16, 0)}  # batches, runs per batch, (unused)
 DEFAULT_BUDGET = {"quick": 60.0, "thorough": 1200.0}
 
 RULE = ("Fault enumeration over stored headers: for every base code object (every code object, nested included, of a seeded program; module, class "
